@@ -108,7 +108,7 @@ InitNode ==
     pv       |-> [r \in Rounds |-> EmptyVS],
     pc       |-> [r \in Rounds |-> EmptyVS],
     tracked  |-> {0},         \* rounds that have a RoundVoteSet (HeightVoteSet.roundVoteSets)
-    catchup  |-> [p \in Vals |-> 0],   \* HeightVoteSet.peerCatchupRounds sizes
+    catchup  |-> [p \in Vals \cup {"ext"} |-> 0],   \* HeightVoteSet.peerCatchupRounds sizes ("ext": any other peer id)
     lastCommit |-> [r |-> -1, votes |-> [v \in Vals |-> None]],   \* cs.LastCommit: the precommits of the commit round
     decision |-> Nil,         \* block saved by finalizeCommit
     panic    |-> "none",      \* reason if the code would panic
@@ -142,7 +142,7 @@ TryFinalizeCommit(s) ==
                        !.lockedR = -1, !.lockedV = Nil, !.validR = -1, !.validV = Nil,
                        !.ttp = FALSE, !.commitR = -1,
                        !.pv = [r \in Rounds |-> EmptyVS], !.pc = [r \in Rounds |-> EmptyVS],
-                       !.tracked = {0}, !.catchup = [p \in Vals |-> 0]],
+                       !.tracked = {0}, !.catchup = [p \in Vals \cup {"ext"} |-> 0]],
              "NewHeight", 0)
 
 \* cs.enterCommit(height, commitRound)
@@ -320,6 +320,7 @@ HandleMsg(me, s, m, peer) ==
   IF Dead(s) \/ s.height # 1 THEN s
   ELSE IF m.t = "proposal" THEN HandleProposal(s, m.src, m)
   ELSE IF m.t = "block" THEN HandleBlock(s, m.v)
+  ELSE IF m.t = "noop" THEN s          \* a message the code ignores (other height, incomplete part, ...)
   ELSE IF m.t = "claim_prevote" THEN HandleClaim(s, "prevote", m.r, peer, m.v)
   ELSE IF m.t = "claim_precommit" THEN HandleClaim(s, "precommit", m.r, peer, m.v)
   ELSE HandleVote(me, s, m.t, m.r, m.src, m.v, peer)
